@@ -113,7 +113,7 @@ def plugin_binary(ctx):
 
 
 def nrand(tier):
-    return int(os.environ.get("CP_NRAND", "400" if tier == "thorough" else "40"))
+    return int(os.environ.get("CP_NRAND", "1200" if tier == "thorough" else "40"))
 
 
 def harness_run(ctx, plugin, tier, seed=None, extra_tag=""):
